@@ -23,6 +23,7 @@ CONSTANTS
   RetOwned,      \* [Method -> BOOLEAN] output is an owned value (single-use semantics apply)
   Required,      \* methods a default body may call on its delegator (required methods of the trait)
   HasMutexApi,   \* feature set has a mutex (std or spin-lock)
+  PoisonArg,     \* an argument value outside Arg on which every input matcher panics (user code inside the matcher)
   HasStd,        \* std feature: teardown can ask std::thread::panicking(); without it the instance remembers that it panicked
   MaxCalls       \* bound on top-level calls
 
@@ -104,6 +105,12 @@ NoSlot == 999
 NoSel(st, d) == [st |-> st, sel |-> 0, pos |-> 0, seg |-> 0, d |-> d]
 Dispatch(st, m, a) ==
   IF m \notin DOMAIN tab THEN NoSel(st, Unmentioned(m))
+  ELSE IF a = PoisonArg
+  THEN \* the first matcher that is evaluated panics: nothing has been counted; an ordered call has
+       \* already consumed its slot
+       IF tab[m].mode = "any" THEN NoSel(st, PanicU)
+       ELSE LET st1 == [st EXCEPT !.ordIdx = @ + 1] IN
+            IF OwnerWithin(m, st.ordIdx) = 0 THEN NoSel(st1, PanicM("CallOrderNotMatched")) ELSE NoSel(st1, PanicU)
   ELSE IF tab[m].mode = "any"
   THEN LET i == SelectAny(m, a) IN
        IF i = 0 THEN NoSel(st, Unmatched(m)) ELSE Respond(st, m, i)
@@ -132,7 +139,9 @@ RECURSIVE EvalCallOn(_, _, _), RunScript(_, _, _, _, _, _)
 EvalCallOn(st, node, onOrig) ==
   LET r  == Dispatch(st, node.m, node.a)
       dr == DispRec(st, node.m, node.a, r) IN
-  CASE r.d.k = "panic" ->                                          \* induce_panic: (no_std: set the instance's flag,) push, then panic
+  CASE r.d.k = "panic" /\ r.d.user ->                              \* a panicking matcher: user code, not recorded
+         [st |-> r.st, log |-> <<>>, out |-> r.d, disp |-> <<dr>>]
+    [] r.d.k = "panic" ->                                          \* induce_panic: (no_std: set the instance's flag,) push, then panic
          [st |-> [r.st EXCEPT !.reasons = Append(@, r.d.class), !.origp = @ \/ onOrig], log |-> <<>>, out |-> r.d, disp |-> <<dr>>]
     [] r.d.k = "ret" -> [st |-> r.st, log |-> <<>>, out |-> r.d, disp |-> <<dr>>]
     [] OTHER ->
@@ -251,7 +260,8 @@ SingleDelivery ==
                                             /\ AllDisp[j].d.k = "ret" }) = 1
 
 \* C04: until the first deviating ordered call, the j-th ordered dispatch is slot j of Flat
-Deviates(d) == d.d.k = "panic" /\ d.d.class \in {"CallOrderNotMatched", "InputsNotMatchedInCallOrder"}
+\* (an ordered call whose matcher panics has consumed its slot without being accepted: it ends the accepted prefix too)
+Deviates(d) == d.d.k = "panic" /\ (d.a = PoisonArg \/ d.d.class \in {"CallOrderNotMatched", "InputsNotMatchedInCallOrder"})
 OrdDisp == SelectSeq(AllDisp, IsOrd)
 OrderedPrefix ==
   LET f == Flat(cfg.leaves) IN
@@ -265,7 +275,7 @@ OrderedPrefix ==
 SlotsOnlyByOrdered == ordIdx = Len(OrdDisp)
 
 \* C07: unanswered calls -- the decision table as the documentation states it
-Unanswered(d) == d.sel = 0 /\ ~(IsOrd(d))
+Unanswered(d) == d.sel = 0 /\ ~(IsOrd(d)) /\ d.a # PoisonArg
 FallbackTable ==
   \A j \in 1..Len(AllDisp) : LET d == AllDisp[j] IN Unanswered(d) =>
      IF d.m \notin DOMAIN tab
@@ -280,8 +290,8 @@ NoFabrication == \A j \in 1..Len(AllDisp) : AllDisp[j].d.k = "ret" => AllDisp[j]
 
 \* C08: reasons is exactly the sequence of mock-induced panics, in order; user panics are absent
 ErrorsRemembered ==
-  reasons = [j \in 1..Len(SelectSeq(AllDisp, LAMBDA d : d.d.k = "panic")) |->
-                SelectSeq(AllDisp, LAMBDA d : d.d.k = "panic")[j].d.class]
+  reasons = [j \in 1..Len(SelectSeq(AllDisp, LAMBDA d : d.d.k = "panic" /\ ~d.d.user)) |->
+                SelectSeq(AllDisp, LAMBDA d : d.d.k = "panic" /\ ~d.d.user)[j].d.class]
 
 \* C03: verdict iff; one line per unmet expectation / never-called method, none for satisfied ones
 VerdictIff ==
